@@ -1,4 +1,4 @@
-(* C13 — executable model M of package.go: Use, Unuse, Set/SetIfHas, Export, Unexport, Remove,
+(* C13 — executable model M of package.go (and the Lambda sharing of pkg/cl/defun.go): Use, Unuse, Set/SetIfHas, Export, Unexport, Remove,
    DefLambda, Undefine, Get, FindFunc, and of the thin Lisp wrappers in pkg/cl that call them
    (use-package, unuse-package, export, unexport, setq/defvar at top level, defun, makunbound,
    fmakunbound, in-package).  Go maps are total functions here; the loops `for name, vv := range
@@ -15,7 +15,9 @@ Definition addr := N.
 Record varval := { vv_pkg : option pkgid;     (* Pkg: package interned in (nil for newUnboundVar) *)
                    vv_val : option Z;         (* None = the Unbound marker *)
                    vv_export : bool }.
-Record funinfo := { fi_pkg : pkgid; fi_val : Z; fi_export : bool }.
+(* FuncInfo: Create is a closure over the Lambda object handed to THAT defun (pkg/cl/defun.go): fi_lam
+   is the address of that Lambda; the body (here: the value returned) lives in the Lambda *)
+Record funinfo := { fi_pkg : pkgid; fi_lam : addr; fi_export : bool }.
 
 Record state := {
   vars : pkgid -> name -> option addr;
@@ -26,11 +28,15 @@ Record state := {
   fnext : addr;
   uses : pkgid -> list pkgid;
   users : pkgid -> list pkgid;
-  cur : pkgid }.
+  cur : pkgid;
+  lheap : addr -> option Z;              (* Lambda objects: the body *)
+  lnext : addr;
+  plam : pkgid -> name -> option addr }. (* Package.lambdas: the FIRST Lambda ever defined under the name *)
 
 Definition init (p0 : pkgid) : state :=
   {| vars := fun _ _ => None; funcs := fun _ _ => None; vheap := fun _ => None; fheap := fun _ => None;
-     vnext := 0; fnext := 0; uses := fun _ => []; users := fun _ => []; cur := p0 |}.
+     vnext := 0; fnext := 0; uses := fun _ => []; users := fun _ => []; cur := p0;
+     lheap := fun _ => None; lnext := 0; plam := fun _ _ => None |}.
 
 Definition upd {A} (f : N -> A) (k : N) (v : A) : N -> A := fun k' => if N.eqb k' k then v else f k'.
 Definition upd2 {A} (f : N -> N -> A) (k1 k2 : N) (v : A) : N -> N -> A :=
@@ -40,13 +46,13 @@ Definition remove1 (x : N) (l : list N) : list N :=   (* delete the first occurr
   (fix go l := match l with [] => [] | y :: l' => if N.eqb x y then l' else y :: go l' end) l.
 
 Definition set_vars s v := {| vars := v; funcs := funcs s; vheap := vheap s; fheap := fheap s; vnext := vnext s;
-  fnext := fnext s; uses := uses s; users := users s; cur := cur s |}.
+  fnext := fnext s; uses := uses s; users := users s; cur := cur s; lheap := lheap s; lnext := lnext s; plam := plam s |}.
 Definition set_funcs s f := {| vars := vars s; funcs := f; vheap := vheap s; fheap := fheap s; vnext := vnext s;
-  fnext := fnext s; uses := uses s; users := users s; cur := cur s |}.
+  fnext := fnext s; uses := uses s; users := users s; cur := cur s; lheap := lheap s; lnext := lnext s; plam := plam s |}.
 Definition set_vheap s h := {| vars := vars s; funcs := funcs s; vheap := h; fheap := fheap s; vnext := vnext s;
-  fnext := fnext s; uses := uses s; users := users s; cur := cur s |}.
+  fnext := fnext s; uses := uses s; users := users s; cur := cur s; lheap := lheap s; lnext := lnext s; plam := plam s |}.
 Definition set_fheap s h := {| vars := vars s; funcs := funcs s; vheap := vheap s; fheap := h; vnext := vnext s;
-  fnext := fnext s; uses := uses s; users := users s; cur := cur s |}.
+  fnext := fnext s; uses := uses s; users := users s; cur := cur s; lheap := lheap s; lnext := lnext s; plam := plam s |}.
 
 Section WithUniverse.
   Variable U : list name.      (* all names *)
@@ -73,7 +79,7 @@ Section WithUniverse.
                 else funcs s p n in
       {| vars := v'; funcs := f'; vheap := vheap s; fheap := fheap s; vnext := vnext s; fnext := fnext s;
          uses := upd (uses s) obj (uses s obj ++ [pkg]); users := upd (users s) pkg (users s pkg ++ [obj]);
-         cur := cur s |}.
+         cur := cur s; lheap := lheap s; lnext := lnext s; plam := plam s |}.
 
   (* Package.Unuse: the tables are rebuilt from the remaining used packages only, copying every
      entry (exported or not), the later package overwriting the earlier *)
@@ -86,7 +92,7 @@ Section WithUniverse.
       let v' := fun p n => if N.eqb p obj then rebuild (vars s) us n else vars s p n in
       let f' := fun p n => if N.eqb p obj then rebuild (funcs s) us n else funcs s p n in
       {| vars := v'; funcs := f'; vheap := vheap s; fheap := fheap s; vnext := vnext s; fnext := fnext s;
-         uses := upd (uses s) obj us; users := upd (users s) pkg (remove1 obj (users s pkg)); cur := cur s |}.
+         uses := upd (uses s) obj us; users := upd (users s) pkg (remove1 obj (users s pkg)); cur := cur s; lheap := lheap s; lnext := lnext s; plam := plam s |}.
 
   (* Package.Set (with SetIfHas); private = false as from setq/defvar *)
   Definition push_users {A} (tbl : pkgid -> name -> option A) (us : list pkgid) (n : name) (a : A) :=
@@ -106,7 +112,7 @@ Section WithUniverse.
         let a := vnext s in
         {| vars := upd2 (vars s) obj n (Some a); funcs := funcs s;
            vheap := upd (vheap s) a (Some {| vv_pkg := Some obj; vv_val := Some v; vv_export := false |});
-           fheap := fheap s; vnext := a + 1; fnext := fnext s; uses := uses s; users := users s; cur := cur s |}
+           fheap := fheap s; vnext := a + 1; fnext := fnext s; uses := uses s; users := users s; cur := cur s; lheap := lheap s; lnext := lnext s; plam := plam s |}
     end.
 
   (* Package.Get as called for the current package: visible value *)
@@ -131,7 +137,7 @@ Section WithUniverse.
     let s1 := match funcs s obj n with
               | Some a => match fheap s a with
                           | Some fi =>
-                              let s' := set_fheap s (upd (fheap s) a (Some {| fi_pkg := fi_pkg fi; fi_val := fi_val fi; fi_export := true |})) in
+                              let s' := set_fheap s (upd (fheap s) a (Some {| fi_pkg := fi_pkg fi; fi_lam := fi_lam fi; fi_export := true |})) in
                               set_funcs s' (push_users (funcs s') (users s obj) n a)
                           | None => s end
               | None => s end in
@@ -145,7 +151,7 @@ Section WithUniverse.
         let a := vnext s1 in
         {| vars := upd2 (vars s1) obj n (Some a); funcs := funcs s1;
            vheap := upd (vheap s1) a (Some {| vv_pkg := None; vv_val := None; vv_export := true |});
-           fheap := fheap s1; vnext := a + 1; fnext := fnext s1; uses := uses s1; users := users s1; cur := cur s1 |}
+           fheap := fheap s1; vnext := a + 1; fnext := fnext s1; uses := uses s1; users := users s1; cur := cur s1; lheap := lheap s1; lnext := lnext s1; plam := plam s1 |}
     end.
 
   (* Package.Unexport *)
@@ -153,7 +159,7 @@ Section WithUniverse.
     let s1 := match funcs s obj n with
               | Some a => match fheap s a with
                           | Some fi =>
-                              let s' := set_fheap s (upd (fheap s) a (Some {| fi_pkg := fi_pkg fi; fi_val := fi_val fi; fi_export := false |})) in
+                              let s' := set_fheap s (upd (fheap s) a (Some {| fi_pkg := fi_pkg fi; fi_lam := fi_lam fi; fi_export := false |})) in
                               set_funcs s' (fun p n' =>
                                 if mem p (users s obj) && N.eqb n' n then
                                   match funcs s' p n with
@@ -202,12 +208,24 @@ Section WithUniverse.
     | None => s
     end.
 
-  (* Package.DefLambda (defun name () v in the current package) *)
+  (* Package.DefLambda (defun name () v in the current package).  pkg/cl/defun.go builds a NEW Lambda lc
+     with the body and a Create closure fc over lc; DefLambda patches obj.lambdas[name] in place when
+     there is one (Doc, Forms, Closure, Macro := those of lc), otherwise registers lc; then the existing
+     or the new FuncInfo gets Create := fc, i.e. it refers to the NEW Lambda.  Nothing ever removes an
+     entry of obj.lambdas (Undefine deletes obj.funcs[name] only). *)
   Definition defun (s : state) (obj : pkgid) (n : name) (v : Z) : state :=
+    let l := lnext s in
+    let lh1 := upd (lheap s) l (Some v) in
+    let lh := match plam s obj n with Some x => upd lh1 x (Some v) | None => lh1 end in
+    let pl := match plam s obj n with Some _ => plam s | None => upd2 (plam s) obj n (Some l) end in
     match funcs s obj n with
     | Some a =>
         match fheap s a with
-        | Some fi => set_fheap s (upd (fheap s) a (Some {| fi_pkg := obj; fi_val := v; fi_export := fi_export fi |}))
+        | Some fi =>
+            {| vars := vars s; funcs := funcs s; vheap := vheap s;
+               fheap := upd (fheap s) a (Some {| fi_pkg := obj; fi_lam := l; fi_export := fi_export fi |});
+               vnext := vnext s; fnext := fnext s; uses := uses s; users := users s; cur := cur s;
+               lheap := lh; lnext := l + 1; plam := pl |}
         | None => s end
     | None =>
         let a := fnext s in
@@ -218,8 +236,9 @@ Section WithUniverse.
                    | None => false end in
         {| vars := if exp then upd2 (vars s) obj n None else vars s;
            funcs := upd2 (funcs s) obj n (Some a); vheap := vheap s;
-           fheap := upd (fheap s) a (Some {| fi_pkg := obj; fi_val := v; fi_export := exp |});
-           vnext := vnext s; fnext := a + 1; uses := uses s; users := users s; cur := cur s |}
+           fheap := upd (fheap s) a (Some {| fi_pkg := obj; fi_lam := l; fi_export := exp |});
+           vnext := vnext s; fnext := a + 1; uses := uses s; users := users s; cur := cur s;
+           lheap := lh; lnext := l + 1; plam := pl |}
     end.
 
   (* Package.Undefine (fmakunbound) *)
@@ -248,7 +267,9 @@ Section WithUniverse.
   Definition q_fun (s : state) (c p : pkgid) (n : name) (private : bool) : qres :=
     match funcs s p n with
     | Some a => match fheap s a with
-                | Some fi => if private || fi_export fi || N.eqb c (fi_pkg fi) then QVal (fi_val fi) else QUnbound
+                | Some fi => if private || fi_export fi || N.eqb c (fi_pkg fi)
+                             then match lheap s (fi_lam fi) with Some v => QVal v | None => QOther end
+                             else QUnbound
                 | None => QUnbound end
     | None => QUnbound
     end.
@@ -268,7 +289,7 @@ Section WithUniverse.
   Definition step (s : state) (o : op) : state :=
     match o with
     | OInPkg p => {| vars := vars s; funcs := funcs s; vheap := vheap s; fheap := fheap s; vnext := vnext s;
-                     fnext := fnext s; uses := uses s; users := users s; cur := p |}
+                     fnext := fnext s; uses := uses s; users := users s; cur := p; lheap := lheap s; lnext := lnext s; plam := plam s |}
     | OUse q p => use s p q
     | OUnuse q p => unuse s p q
     | OExport n p => export s p n
